@@ -531,12 +531,12 @@ pub(crate) fn run(opts: &Opts, report: &mut Report) {
             // the growing world repeats what the static worlds cover up to the point where the
             // growth starts: quick tier = the messages after that point and the mutant classes
             // that are about positions (thorough: everything)
-            if case.grow_from.is_some() && !thorough {
+            if case.grow_from.is_some() && !thorough && std::env::var("C06_FULL_GROW").is_err() {
                 if honest_start <= case.grow_from.unwrap_or(0) {
                     continue;
                 }
                 muts.retain(|(class, _, _)| {
-                    ["all:=blocks-one-or-two-intervals-lower", "start-number-shifted", "extra:authentic-next", "drop-last-hash-only", "swap-neighbouring-filters"].contains(&class.as_str())
+                    class.starts_with("structural:") || ["all:=blocks-one-or-two-intervals-lower", "start-number-shifted", "extra:authentic-next", "drop-last-hash-only", "swap-neighbouring-filters"].contains(&class.as_str())
                 });
             }
             for (mi, (class, label, data)) in muts.iter().enumerate() {
